@@ -395,7 +395,7 @@ var c20Engine = &engine{
 	prop: "C20", sub: "c20",
 	total: func(tier string) uint64 {
 		if tier == "thorough" {
-			return 20_000_000
+			return 60_000_000
 		}
 		return 200_000
 	},
